@@ -1188,22 +1188,44 @@ def m_ioerr(c, call, kind, msg=None): return Opaque('io::Error', str_text(deref(
 
 # ---------------------------------------------------------------------------- fmt / log (empty bodies)
 
+class FmtV(StrV):
+    """result of format!(): the literal pieces and the displayed arguments, kept structured"""
+    def __init__(self, parts):
+        StrV.__init__(self, [z3.BitVecVal(63, 8)]); self.parts = parts
+
+
 @regp(r'^core::fmt::rt::Argument::<?.*new_|^Argument::new_|fmt::rt::Argument')
-def m_fmtarg(c, call, *a): return Opaque('fmtarg')
+def m_fmtarg(c, call, *a): return Opaque('fmtarg', deref(a[0]) if a else None)
 
 
 @regp(r'(^|::)Arguments(::<.*>)?::(new|new_const|new_v1|new_v1_formatted|from_str|from_str_nonconst)$')
 def m_fmtargs(c, call, *a):
-    txt = None
+    txt = None; args = []
     if a:
         p = deref(a[0])
         try:
             if isinstance(p, StrV): txt = str_text(p)
-            else:
-                parts = seq_of(p); txt = ''.join(str_text(deref(x)) for x in parts if isinstance(deref(x), StrV))
+            elif isinstance(p, (list, SliceV, VecV)) and all(isinstance(deref(x), StrV) for x in seq_of(p)):
+                txt = '{}'.join(str_text(deref(x)) for x in seq_of(p))
+            elif isinstance(p, (list, SliceV, VecV)):
+                # compact template: n<0x80 = literal of n bytes, 0xC0 = next argument, 0 = end
+                raw = [conc(x) for x in seq_of(p)]
+                tmpl = []; i = 0
+                while i < len(raw) and raw[i] not in (0, None):
+                    b = raw[i]
+                    if b == 0xC0: tmpl.append(('arg',)); i += 1
+                    elif b < 0x80: tmpl.append(('lit', bytes(raw[i + 1:i + 1 + b]))); i += 1 + b
+                    else: tmpl = None; break
+                txt = tmpl
         except Unsupported:
             txt = None
-    return Opaque('fmtargs', txt)
+        if len(a) > 1:
+            try:
+                args = [deref(x).info for x in seq_of(a[1]) if isinstance(deref(x), Opaque)]
+            except Unsupported:
+                args = []
+    o = Opaque('fmtargs', txt); o.args = args
+    return o
 
 
 @regp(r'^log::__private_api::|^log::max_level$|^max_level$|^__private_api::')
@@ -1221,7 +1243,17 @@ def m_partial_ord(c, call, a, b):
 
 
 @reg('std::fmt::format', 'alloc::fmt::format', 'fmt::format', 'format')
-def m_format(c, call, *a): return StrV([z3.BitVecVal(63, 8)])
+def m_format(c, call, *a):
+    fa = deref(a[0]) if a else None
+    tmpl = getattr(fa, 'info', None); args = list(getattr(fa, 'args', []))
+    items = None
+    if isinstance(tmpl, list):
+        items = []
+        for t in tmpl:
+            if t[0] == 'lit': items.append(('lit', t[1]))
+            elif args: items.append(('arg', args.pop(0)))
+            else: items = None; break
+    return FmtV({'template': tmpl, 'items': items})
 
 
 @regp(r'^<.* as (std::fmt::)?(Display|Debug)>::fmt$|Formatter::|^std::fmt::Write::|DebugStruct|DebugTuple')
@@ -1268,7 +1300,10 @@ def m_pd_decode_utf8(c, call, pd):
     ok = c.branch(utf8_valid(bs))
     cow = EnumV('Cow', 'Owned' if changed else 'Borrowed', [StrV(bs)])
     if call.key.endswith('lossy'):
-        if not ok: raise Unsupported('decode_utf8_lossy on invalid UTF-8 (replacement characters not modelled)')
+        if not ok:
+            # U+FFFD replacement is not modelled: the content of a lossily decoded string is left unconstrained-but-marked
+            lossy = StrV(bs); lossy.lossy = True
+            return EnumV('Cow', 'Owned', [lossy])
         return cow
     return Ok(cow) if ok else Err(Opaque('Utf8Error'))
 
@@ -1281,3 +1316,68 @@ def key_eq_dyn(c, a, b):
         if f is not None:
             return c.run_compiled(f, [a, b])
     return eq_term(a, b)
+
+
+# ---------------------------------------------------------------------------- further integer / slice helpers
+
+@regp(r'^(i8|i16|i32|i64|isize)::(unsigned_abs|abs|wrapping_abs)$')
+def m_abs(c, call, v):
+    neg = v < 0
+    if call.key.endswith('::abs') and c.dev:
+        mn = z3.BitVecVal(1 << (v.size() - 1), v.size())
+        if c.branch(v == mn): raise PanicExc(c.cur_fn, 'arith', 'attempt to negate with overflow')
+    return z3.simplify(z3.If(neg, -v, v))
+
+
+@regp(r'^(u8|u16|u32|u64|usize|i8|i16|i32|i64|isize)::(wrapping_add|wrapping_sub|wrapping_mul)$')
+def m_wrapping(c, call, a, b):
+    op = call.key.split('_')[-1]
+    return {'add': a + b, 'sub': a - b, 'mul': a * b}[op]
+
+
+@regp(r'^(u8|u16|u32|u64|usize|i8|i16|i32|i64|isize)::(checked_add|checked_sub|checked_mul)$')
+def m_checked(c, call, a, b):
+    op = call.key.split('_')[-1]; signed = INT[call.key.split('::')[0]][1]
+    if op == 'add':
+        ok = z3.And(z3.BVAddNoOverflow(a, b, signed), z3.BVAddNoUnderflow(a, b)) if signed else z3.BVAddNoOverflow(a, b, False); r = a + b
+    elif op == 'sub':
+        ok = z3.And(z3.BVSubNoOverflow(a, b), z3.BVSubNoUnderflow(a, b, True)) if signed else z3.BVSubNoUnderflow(a, b, False); r = a - b
+    else:
+        ok = z3.And(z3.BVMulNoOverflow(a, b, signed), z3.BVMulNoUnderflow(a, b)) if signed else z3.BVMulNoOverflow(a, b, False); r = a * b
+    return Some(r) if c.branch(z3.simplify(ok)) else NONE()
+
+
+@regp(r'^(u8|u16|u32|u64|usize|i8|i16|i32|i64|isize)::(min|max)$|^(std::cmp|core::cmp|cmp)::(min|max)$|^Ord::(min|max)$')
+def m_minmax(c, call, a, b):
+    if not z3.is_bv(a): raise Unsupported('min/max on ' + type(a).__name__)
+    t = call.key.split('::')[0]; signed = INT.get(t, (0, False))[1]
+    lt = (a < b) if signed else z3.ULT(a, b)
+    return z3.If(lt, a, b) if call.key.endswith('min') else z3.If(lt, b, a)
+
+
+@reg('slice::windows')
+def m_windows(c, call, v, n):
+    s = seq_of(v); k = conc(n)
+    if k is None or k == 0: raise Unsupported('windows size')
+    return IterV([SliceV(s, i, i + k) for i in range(max(0, len(s) - k + 1))])
+
+
+@reg('slice::chunks')
+def m_chunks(c, call, v, n):
+    s = seq_of(v); k = conc(n)
+    if k is None or k == 0: raise Unsupported('chunk size')
+    return IterV([SliceV(s, i, min(i + k, len(s))) for i in range(0, len(s), k)])
+
+
+@reg('NonZero::get', 'NonZeroUsize::get')
+def m_nonzero_get(c, call, v):
+    v = deref(v)
+    return v.nth(0) if isinstance(v, StructV) else (v[0] if isinstance(v, Tup) else v)
+
+
+@reg('BytesMut::reserve', 'Vec::reserve_exact')
+def m_bm_reserve(c, call, b, n):
+    # growing by an attacker-controlled amount: beyond isize::MAX the allocation path panics ("capacity overflow")
+    if not c.branch(z3.ULE(n, z3.BitVecVal((1 << 62), 64))):
+        raise PanicExc(c.cur_fn, 'panic', 'capacity overflow')
+    return UNIT
